@@ -1388,6 +1388,47 @@ def r06w(ctx, rep, rule="R06w"):
     rep.floor(rule, "compiler sites that create a global binding", n, 3)
 
 
+ALWAYS_SOME_LOCAL = {
+    # local functions a reviewed `unwrap` relies on to return Some on every path
+    "marwood::number::Number::to_inexact": "the #i path of Number::parse_with_exactness unwraps it",
+}
+
+
+def r06x(ctx, rep, rule="R06x"):
+    facts = ctx["facts"]
+    rep.rule(rule, "premises of reviewed unwraps: a function a reviewed entry relies on to `return Some for every input` does so "
+             "visibly — every value it returns is an Option::Some aggregate built in its own body (per representation arm), never "
+             "the Option of a callee (map / filter / and_then / a checked conversion), which can be None.")
+    for path, why in sorted(ALWAYS_SOME_LOCAL.items()):
+        f = need(rep, rule, facts, path)
+        if f is None:
+            continue
+        key = "%s|%s" % (rule, short_path(path))
+        bad = []
+        for d in f.defs().get(0, []):
+            if d[2] == "partial":
+                continue
+            if d[2] == "call":
+                bad.append(("the result of %s" % short_path(callee(d[3]) or "?"), d[3]["loc"]))
+            else:
+                rv = d[3]["rv"]
+                if rv["k"] == "agg" and rv.get("variant") == "Some":
+                    continue
+                if rv["k"] == "agg" and rv.get("variant") == "None":
+                    bad.append(("None", d[3]["loc"]))
+                elif rv["k"] == "use":
+                    o = f.origin(rv["a"])
+                    if not (o[0] == "rv" and o[1]["rv"]["k"] == "agg" and o[1]["rv"].get("variant") == "Some"):
+                        bad.append(("a value that is not a Some built here", d[3]["loc"]))
+                else:
+                    bad.append((rv["k"], d[3]["loc"]))
+        if bad:
+            rep.fail(rule, key, "%s can return %s, but %s: the unwrap panics where the function yields None (an exact integer "
+                     "beyond the range of a double after `#i`, for one)" % (short_path(path), bad[0][0], why), [b[1] for b in bad])
+        else:
+            rep.ok(rule, key, "%s builds Some(..) on every path (%s)" % (short_path(path), why), [f.span])
+
+
 def run(ctx, rep):
     from . import numeric, tables, runloop
     r06a(ctx, rep)
@@ -1399,6 +1440,7 @@ def run(ctx, rep):
     r06t(ctx, rep)
     r06u(ctx, rep)
     r06w(ctx, rep)
+    r06x(ctx, rep)
     # R06v: the n-ary list walks of the prelude need a list to end on
     from . import C14
     sub = type(rep)(rep.prop)
@@ -1623,6 +1665,25 @@ def r06q(ctx, rep, rule="R06q"):
                                      "procedure, macro or continuation value inside a quotation reaches maybe_put_cell's panic" % f.short, [f.span])
     rep.floor(rule, "builtins that compile a converted run-time value (eval)", len(reach_compile), 1)
 
+    # (iii) the guard itself looks everywhere the converter will: is_datum walks into both container variants
+    idf = facts.fns.get("marwood::cell::Cell::is_datum")
+    if idf is None:
+        rep.anchor_lost(rule, "Cell::is_datum")
+    else:
+        sws = disc_switches(facts, idf, "marwood::cell::Cell")
+        feeds = [bb for bb, t in idf.calls() if (callee(t) or "").endswith("Vec::<T, A>::push") or
+                 re.search(r"Vec<.*> as std::iter::Extend<.*>>::extend$", callee(t) or "") or callee(t) == idf.path]
+        for var in ("Pair", "Vector"):
+            region = set()
+            for sw in sws:
+                region |= arm_region(idf, sw, var)
+            k3 = "%s|is_datum|descends-into-%s" % (rule, var)
+            if any(bb in region for bb in feeds):
+                rep.ok(rule, k3, "Cell::is_datum hands the components of a %s back to its walk" % var, [idf.span])
+            else:
+                rep.fail(rule, k3, "Cell::is_datum does not walk into the components of a %s (it looks at most at the immediate "
+                         "elements): a procedure nested one level further down passes the guard, reaches maybe_put_cell through "
+                         "the compiler and panics — (eval (vector (list car)))" % var, [idf.span])
 
 def r06f(ctx, rep):
     facts = ctx["facts"]
